@@ -13,18 +13,21 @@ import subprocess
 import sys
 
 VERIF = os.path.dirname(os.path.dirname(os.path.abspath(__file__)))
-TARGET = '/var/tmp/vp-confirm-target'
+TARGET = os.environ.get('VERIF_CONFIRM_TARGET', '/var/tmp/vp-confirm-target')
 
 
-def sh(cmd, cwd, timeout=7200):
+def sh(cmd, cwd, timeout=2700):
     env = dict(os.environ, CARGO_TARGET_DIR=TARGET, CARGO_NET_OFFLINE='true')
-    p = subprocess.run(cmd, cwd=cwd, env=env, shell=isinstance(cmd, str), stdout=subprocess.PIPE, stderr=subprocess.STDOUT,
-                       text=True, timeout=timeout)
-    return p.returncode, p.stdout
+    try:
+        p = subprocess.run(cmd, cwd=cwd, env=env, shell=isinstance(cmd, str), stdout=subprocess.PIPE, stderr=subprocess.STDOUT,
+                           text=True, timeout=timeout)
+        return p.returncode, p.stdout
+    except subprocess.TimeoutExpired:
+        return 124, 'TIMEOUT after %d s' % timeout
 
 
 def suite(wt):
-    rc, out = sh('cargo nextest run --workspace --no-fail-fast --offline 2>&1 | tail -40', wt)
+    rc, out = sh('cargo nextest run --workspace --no-fail-fast --offline --test-threads 6 2>&1 | tail -40', wt)
     m = re.search(r'(\d+) tests? run: (\d+) passed(?: \((\d+) (?:slow|flaky)[^)]*\))?(?:, (\d+) failed)?', out)
     failed = re.findall(r'^\s+FAIL .*?\] +(\S+ \S+)', out, re.M)
     return (m.group(0) if m else out[-300:]), failed
@@ -46,7 +49,13 @@ def main():
             mfile = re.search(r'([\w/.\-]+\.rs)(?!.*[\w/.\-]+\.rs)', place.replace('demo.rs', ''))
             demo_file = mfile.group(1) if mfile else None
             demo_cmd = meta.get('demo_cmd', '')
+            mc = re.search(r'((?:[A-Z_]+=\S+\s+)*cargo test .*)$', demo_cmd)
+            demo_cmd = mc.group(1) if mc else demo_cmd
             demo = open(os.path.join(d, 'demo.rs')).read()
+            newfile = bool(demo_file) and not os.path.exists(os.path.join(wt, demo_file)) and '/tests/' in demo_file
+            if newfile:
+                os.makedirs(os.path.dirname(os.path.join(wt, demo_file)), exist_ok=True)
+                open(os.path.join(wt, demo_file), 'w').write('')
             if not demo_file or not os.path.exists(os.path.join(wt, demo_file)):
                 res['error'] = f'cannot place demo automatically: {place}'
             else:
@@ -57,16 +66,27 @@ def main():
                 res['demo_on_pristine'] = 'pass' if re.search(r'test result: ok', out) and 'FAILED' not in out else 'FAIL: ' + out[-400:]
                 # 2. patched + demo
                 subprocess.run(['git', '-C', wt, 'checkout', '--', '.'], check=True)
+                if newfile:
+                    os.remove(os.path.join(wt, demo_file))
                 ap = subprocess.run(['git', '-C', wt, 'apply', os.path.join(d, 'patch.diff')], stdout=subprocess.PIPE, stderr=subprocess.STDOUT, text=True)
+                if ap.returncode != 0:
+                    # seeds made before the fix commits: same hunk context modulo the repaired lines
+                    ap2 = subprocess.run(['patch', '-p1', '-s', '-i', os.path.join(d, 'patch.diff')], cwd=wt, stdout=subprocess.PIPE, stderr=subprocess.STDOUT, text=True)
+                    if ap2.returncode == 0:
+                        res['note'] = 'patch was made against the pre-fix tree; applied with `patch -p1` (fuzz) on the current tree'
+                        ap = ap2
                 if ap.returncode != 0:
                     res['error'] = 'patch does not apply: ' + ap.stdout[-300:]
                 else:
-                    patched = open(os.path.join(wt, demo_file)).read()
-                    open(os.path.join(wt, demo_file), 'w').write(patched.rstrip('\n') + '\n\n' + demo)
+                    patched = open(os.path.join(wt, demo_file)).read() if os.path.exists(os.path.join(wt, demo_file)) else ''
+                    open(os.path.join(wt, demo_file), 'w').write((patched.rstrip('\n') + '\n\n' if patched else '') + demo)
                     rc, out = sh(demo_cmd + ' 2>&1 | tail -25', wt)
                     res['demo_with_patch'] = 'fails (as required)' if re.search(r'test result: FAILED|panicked', out) else 'DOES NOT FAIL: ' + out[-400:]
                     # 3. patched, suite
-                    open(os.path.join(wt, demo_file), 'w').write(patched)
+                    if newfile:
+                        os.remove(os.path.join(wt, demo_file))
+                    else:
+                        open(os.path.join(wt, demo_file), 'w').write(patched)
                     s, failed = suite(wt)
                     if failed:
                         s2, failed2 = suite(wt)   # the suite has wall-clock dependent tests; one retry on a loaded machine
